@@ -98,3 +98,42 @@ def nearest_def(cfg, stmt, name):
             break
         cur = par
     return None
+
+
+def chain_conjuncts(cfg, stmt, func_node=None, module=None):
+    """The condition under which ``stmt`` runs, as a set of normalised conjunct texts (negation normal form, nested
+    if / early-exit / De Morgan spellings unified, condition aliases looked through).  Rules should test membership
+    in this set instead of matching ``(test, polarity)`` pairs literally."""
+    from ..dataflow import Defs
+    from ..refguards import _conjuncts, _inline, _nnf
+
+    defs = Defs(func_node if func_node is not None else cfg.func)
+    out = set()
+    for t, pol in cfg.guards(stmt):
+        for lit in _conjuncts(_nnf(_inline(t, defs, module=module), pol)):
+            ast.fix_missing_locations(lit)
+            out.add(unparse(lit))
+    return out
+
+
+def with_helpers(f: FuncInfo, depth=1):
+    """``f`` and the same-module functions / same-class methods it calls (to ``depth``): a pattern that a rule looks
+    for in ``f`` may have been extracted into a private helper, which is still part of f's behaviour."""
+    out, seen, frontier = [f], {f.fq}, [f]
+    for _ in range(depth):
+        nxt = []
+        for g in frontier:
+            for n in ast.walk(g.node):
+                if not isinstance(n, ast.Call):
+                    continue
+                h = None
+                if isinstance(n.func, ast.Name):
+                    h = g.module.functions.get(n.func.id)
+                elif isinstance(n.func, ast.Attribute) and isinstance(n.func.value, ast.Name) and n.func.value.id in ("self", "cls") and g.cls is not None:
+                    h = g.cls.methods.get(n.func.attr)
+                if h is not None and h.fq not in seen and h.kind not in ("property", "cached_property"):
+                    seen.add(h.fq)
+                    out.append(h)
+                    nxt.append(h)
+        frontier = nxt
+    return out
